@@ -1323,8 +1323,6 @@ def one_case(ctx, case, label="gen", budget=None):
                         continue
                     if st["op"] in ("logpdf", "factor", "cdf", "valuefor") and fam_of(src) not in ("normal", "naturalNormal"):
                         continue  # densities of gamma / beta are not modelled (oracle only)
-                    if st["op"] == "variance" and isinstance(src, TransformedMessage):
-                        continue  # not modelled
                     got = elem(val, shape, i)
                     want = h2f(mo["v"])
                     if not close(got, want, rel=1e-8, scale=max(1.0, scale if st["op"] in ("mean", "variance") else 1.0)):
